@@ -2,7 +2,10 @@ package run
 
 import (
 	"encoding/json"
+	"fmt"
+	"github.com/IrineSistiana/mosproxy/verifsim/peers"
 	"os"
+	"path/filepath"
 	"runtime"
 	"strconv"
 	"testing"
@@ -72,6 +75,16 @@ func TestSim(t *testing.T) {
 				os.Stderr.WriteString("\n=====DUMP=====\n")
 			}
 		}()
+	}
+	// The process's system trust store holds exactly one root, the harness's
+	// "other" CA: "verification against the system roots" then has an outcome
+	// that differs from verification against a configured CA (C17).  It has
+	// to be in place before anything loads the system pool.
+	rootsFile := filepath.Join(os.TempDir(), fmt.Sprintf("verifsim-sysroots-%d.pem", os.Getpid()))
+	if err := os.WriteFile(rootsFile, peers.NewPKI().OtherCAPEM, 0o600); err == nil {
+		os.Setenv("SSL_CERT_FILE", rootsFile)
+		os.Setenv("SSL_CERT_DIR", filepath.Join(os.TempDir(), "verifsim-no-such-dir"))
+		defer os.Remove(rootsFile)
 	}
 	cryptotest.SetGlobalRandom(t, p.Seed)
 	res := scen.Run(t, p, keep)
